@@ -34,7 +34,7 @@ PROPS = {
     "C07": dict(streams=[orc("rangeinst", "mixed", 400, 6000), orc("rangeinst", "rangefn", 200, 3000), orc("rangeinst", "func", 300, 4000)], rule=RULE, trusted_base=COMMON_TB),
     "C08": dict(streams=[orc("fallback", "fallback", 0, 0)], rule="exhaustive enumeration: every function of parser.Functions (full and minimal arity), every aggregation and binary/set operator and modifier, subqueries, string literals, range vectors, each in every syntactic position x instant/range x fallback on/off", trusted_base=COMMON_TB, exhaustive=True),
     "C09": dict(streams=[orc("opt", "optx", 1500, 30000), orc("opt", "mixed", 300, 6000), orc("opt", "twins", 300, 4000)], rule=RULE + "; optx = selectors of <=2 matchers over the 2-key x 4-type x 3-value alphabet (incl. repeated keys) in 18 positional templates over a dataset with every label-presence combination", trusted_base=COMMON_TB),
-    "C10": dict(streams=[orc("dist", "dist", 600, 12000), orc("dist", "dnest", 150, 3000), orc("distplan", "dist", 400, 8000), orc("distplan", "dnest", 150, 3000), orc("distplan", "mixed", 400, 8000), orc("distplan", "func", 200, 4000)], rule=RULE + "; random assignment of the series to 1..4 remote engines incl. empty partitions; dnest = the same aggregation nested with groups split across engines; distplan = the real DistributedExecutionOptimizer's plan against the Lean model of its traversal, by plan shape", trusted_base=COMMON_TB),
+    "C10": dict(streams=[orc("dist", "dist", 600, 12000), orc("dist", "dnest", 150, 3000), orc("dist", "dfunc", 900, 3600), orc("dist", "aggparam", 600, 6000), orc("distplan", "dfunc", 1800, 3600), orc("distplan", "dist", 400, 8000), orc("distplan", "dnest", 150, 3000), orc("distplan", "mixed", 400, 8000), orc("distplan", "func", 200, 4000)], rule=RULE + "; random assignment of the series to 1..4 remote engines incl. empty partitions; dnest = the same aggregation nested with groups split across engines; distplan = the real DistributedExecutionOptimizer's plan against the Lean model of its traversal, by plan shape; dfunc = every function of the parser's table with arguments of the declared types in twelve positions", trusted_base=COMMON_TB),
     "C11": dict(streams=[orc("procs", "mixed", 150, 2500), orc("procs", "selector", 100, 1500), orc("procs", "twins", 250, 3000), orc("procs", "agg", 300, 4000), orc("procs", "kagg", 200, 3000), orc("kernel", "kco", 400, 6000)], rule=RULE + "; each case under GOMAXPROCS 1,2,3,4,6,8,12,16, permuted storage order, added unrelated series, yields in storage callbacks", trusted_base=COMMON_TB),
     "C12": dict(streams=[orc("concurrent", "concurrent", 60, 600, workers=4), orc("concurrent", "twins", 30, 300, workers=4)], race=True, rule=RULE + "; up to 32 concurrent executions of 2-6 queries on one engine and one storage under the race detector", trusted_base=COMMON_TB),
     "C13": dict(streams=[orc("panic", "mixed", 40, 500), orc("panic", "extreme", 60, 800), orc("lifecycle", "mixed", 150, 2000), diff("extreme", 400, 6000), diff("aggparam", 400, 6000)], rule=RULE + "; a panic (runtime error / string value) injected at storage events, each attempt in a child process", trusted_base=COMMON_TB),
